@@ -225,3 +225,27 @@ def tensor_cfgs(ctx, bits, syms, grans, dtypes, block_sizes=(0,)) -> list[Obj]:
             if isinstance(o, Obj):
               out.append(o)
   return out
+
+
+# ------------------------------------------------- name-independent helpers
+def loop_targets(func_node: ast.AST, iter_suffix: str) -> list[tuple[ast.For, list[str]]]:
+  """For-loops whose iterated expression (looking through enumerate/zip/list)
+  ends with `iter_suffix` -> (loop, names bound by its target, innermost last)."""
+  out = []
+  for l in walk_no_nested(func_node):
+    if not isinstance(l, ast.For):
+      continue
+    it = l.iter
+    base = it.args[0] if isinstance(it, ast.Call) and call_name(it) in ('enumerate', 'list', 'sorted', 'reversed') and it.args else it
+    if ast.unparse(base).endswith(iter_suffix):
+      names = [n.id for n in ast.walk(l.target) if isinstance(n, ast.Name)]
+      out.append((l, names))
+  return out
+
+
+def loop_var(func_node: ast.AST, iter_suffix: str) -> str:
+  """Name of the element variable of the (single) loop over `...<iter_suffix>`."""
+  ls = loop_targets(func_node, iter_suffix)
+  if len(ls) != 1:
+    raise Exception(f'expected one loop over *{iter_suffix}, found {len(ls)}')
+  return ls[0][1][-1]
